@@ -175,9 +175,10 @@ func genC09(out, tier string, rng *rand.Rand) {
 			sink.AddPre(results[k].c, results[k].text, results[k].js, nt)
 		}
 	}
+	addFsPathCases(sink) // the (bucket, name) -> files mapping of the file store against GCS/FsPaths.v
 	// the pre-seeded directory
 	lc := Case{Store: "file", Tag: "legacy", Prog: []Req{{Kind: "get_bucket", B: "no-such-bucket"}}, Obs: []Resp{{Status: 404, Kind: "none", Notes: legacyCase()}}}
 	js, _ := json.Marshal(lc)
 	sink.AddPreV("fs", "check_all_fs", "(list req * list resp)", lc, lc.coq(), js, true)
-	sink.Close(fmt.Sprintf("random histories of about %d requests (names representable as files) run side by side on the memory store (memory model) and the file store (file-store model: same handlers, filepath.Walk order); on the file store a fresh emulator instance is opened on the directory after every third request and at the end and must answer every metadata GET, media GET and listing exactly like the running instance; plus a directory pre-seeded with a content file without sidecar; non-trivial = a successful write and a non-empty download", length), false)
+	sink.Close(fmt.Sprintf("random histories of about %d requests (names representable as files) run side by side on the memory store (memory model) and the file store (file-store model: same handlers, filepath.Walk order); on the file store a fresh emulator instance is opened on the directory after every third request and at the end and must answer every metadata GET, media GET and listing exactly like the running instance; plus a directory pre-seeded with a content file without sidecar; plus the files Add creates in an empty file store for every name over {a . /} up to length 5 and a pool of traps, against GCS/FsPaths.v; non-trivial = a successful write and a non-empty download", length), false)
 }
